@@ -155,7 +155,8 @@ CLAIMED = {
              "initialized and with the complete table of its snapshot (C15_Prune*). drv_rec places update / delete / delete+re-insert / "
              "status-only writes of a second writer (through the shared reconciler.StatusSet where the objects carry one) between an "
              "operation and its status commit, for every outcome; every commit and quiescence event carries the whole table as it "
-             "reads then, which must be what the logged commits put there (C15_NewerOverwritten).",
+             "reads then, which must be what the logged commits put there (C15_NewerOverwritten). A second pass (RecAlgTrace.tla, "
+             "note-only) checks that the same logs are behaviours of the algorithm model Reconciler.tla.",
         note='TLC 1.8; virtual time (testing/synctest), instantaneous operations, refresh loop enabled in family refresh and a fifth of the other scripts; every commit to the reconciled table is observed at its linearization point through the verif hook commit.stored; sampled environment scripts (<= 4 objects, <= 6 failures).',
         technique="TLA+ trace specification RecTrace.tla (monitor) checked by TLC on logs of the real reconciler under virtual time",
         design_ref="4.9, 5.5, 7 (C15)"),
